@@ -1,6 +1,504 @@
 package dec
 
-func typesEntries() []*Entry { return nil }
-func rlpEntries() []*Entry   { return nil }
-func jsonEntries() []*Entry  { return nil }
-func rawdbEntries() []*Entry { return nil }
+import (
+	"encoding/json"
+	"fmt"
+	"math/big"
+	"sort"
+
+	"github.com/dominant-strategies/go-quai/common"
+	"github.com/dominant-strategies/go-quai/common/hexutil"
+	"github.com/dominant-strategies/go-quai/core/rawdb"
+	"github.com/dominant-strategies/go-quai/core/types"
+	"github.com/dominant-strategies/go-quai/ethdb"
+	"github.com/dominant-strategies/go-quai/log"
+	"github.com/dominant-strategies/go-quai/params"
+	"github.com/dominant-strategies/go-quai/rlp"
+	"google.golang.org/protobuf/proto"
+)
+
+// ---------- ProtoDecode of the individual wire / storage types ----------
+
+// pd builds the entry "types.<name>.ProtoDecode": unmarshal into a fresh M, then decode.
+func pd[M proto.Message](name string, fresh func() M, valid []M, decode func(M) error) *Entry {
+	protos := make([]proto.Message, len(valid))
+	for i, v := range valid {
+		protos[i] = v
+	}
+	return &Entry{Name: "types." + name + ".ProtoDecode", Protos: protos, Fn: func(in []byte) (bool, error) {
+		m := fresh()
+		if err := proto.Unmarshal(in, m); err != nil {
+			return false, err
+		}
+		return true, decode(m)
+	}}
+}
+
+func touchTx(tx *types.Transaction) {
+	_ = tx.Hash()
+	_ = tx.Type()
+	if tx.Type() != types.QiTxType {
+		_ = tx.To() // (*QiTx).to panics by contract: production callers check the type first
+	}
+	_ = tx.Data()
+	_ = tx.Size()
+	if tx.Type() == types.QiTxType {
+		_ = tx.TxIn()
+		_ = tx.TxOut()
+	}
+}
+
+func richReceipt() *types.Receipt {
+	r := types.NewReceipt(nil, false, 21000)
+	r.TxHash = h(100)
+	r.ContractAddress = addrIn(9)
+	r.GasUsed = 21000
+	r.Logs = []*types.Log{{Address: addrIn(10), Topics: []common.Hash{h(101), h(102)}, Data: []byte{1, 2, 3}}}
+	r.OutboundEtxs = types.Transactions{richEtx()}
+	r.Bloom = types.CreateBloom(types.Receipts{r})
+	return r
+}
+
+func typesEntries() []*Entry {
+	var es []*Entry
+	es = append(es, pd("Header", func() *types.ProtoHeader { return new(types.ProtoHeader) },
+		[]*types.ProtoHeader{must(richHeader().ProtoEncode())},
+		func(m *types.ProtoHeader) error {
+			hd := &types.Header{}
+			if err := hd.ProtoDecode(m, loc00); err != nil {
+				return err
+			}
+			_ = hd.Hash()
+			return nil
+		}))
+	var whs []*types.ProtoWorkObjectHeader
+	for _, v := range []struct {
+		id  types.PowID
+		aux bool
+	}{{types.Kawpow, true}, {types.Scrypt, true}, {types.Progpow, false}, {types.SHA_BTC, true}, {types.SHA_BCH, true}} {
+		whs = append(whs, must(richWOHeader(v.id, v.aux).ProtoEncode()))
+	}
+	es = append(es, pd("WorkObjectHeader", func() *types.ProtoWorkObjectHeader { return new(types.ProtoWorkObjectHeader) }, whs,
+		func(m *types.ProtoWorkObjectHeader) error {
+			wh := &types.WorkObjectHeader{}
+			if err := wh.ProtoDecode(m, loc00); err != nil {
+				return err
+			}
+			_ = wh.Hash()
+			_ = wh.SealHash()
+			return nil
+		}))
+	views := []types.WorkObjectView{types.BlockObject, types.BlockObjects, types.PEtxObject, types.HeaderObject, types.WorkShareObject, types.WorkShareTxObject}
+	for _, view := range views {
+		view := view
+		wo := richWO(types.Kawpow, true)
+		valid := []*types.ProtoWorkObject{must(wo.ProtoEncode(view)), must(richWO(types.Scrypt, true).ProtoEncode(view))}
+		es = append(es, pd(fmt.Sprintf("WorkObject[view=%d]", view), func() *types.ProtoWorkObject { return new(types.ProtoWorkObject) }, valid,
+			func(m *types.ProtoWorkObject) error {
+				w := &types.WorkObject{}
+				if err := w.ProtoDecode(m, loc00, view); err != nil {
+					return err
+				}
+				touchWO(w)
+				return nil
+			}))
+		body := must(richBody().ProtoEncode(view))
+		es = append(es, pd(fmt.Sprintf("WorkObjectBody[view=%d]", view), func() *types.ProtoWorkObjectBody { return new(types.ProtoWorkObjectBody) },
+			[]*types.ProtoWorkObjectBody{body},
+			func(m *types.ProtoWorkObjectBody) error {
+				b := &types.WorkObjectBody{}
+				return b.ProtoDecode(m, loc00, view)
+			}))
+	}
+	var ptxs []*types.ProtoTransaction
+	for _, tx := range richTxs() {
+		ptxs = append(ptxs, must(tx.ProtoEncode()))
+	}
+	for _, l := range []common.Location{loc00, {1, 2}} {
+		l := l
+		es = append(es, pd(fmt.Sprintf("Transaction@%v", []byte(l)), func() *types.ProtoTransaction { return new(types.ProtoTransaction) }, ptxs,
+			func(m *types.ProtoTransaction) error {
+				tx := &types.Transaction{}
+				if err := tx.ProtoDecode(m, l); err != nil {
+					return err
+				}
+				touchTx(tx)
+				return nil
+			}))
+	}
+	es = append(es, pd("Transactions", func() *types.ProtoTransactions { return new(types.ProtoTransactions) },
+		[]*types.ProtoTransactions{must(types.Transactions(richTxs()).ProtoEncode())},
+		func(m *types.ProtoTransactions) error {
+			txs := types.Transactions{}
+			if err := txs.ProtoDecode(m, loc00); err != nil {
+				return err
+			}
+			for _, tx := range txs {
+				touchTx(tx)
+			}
+			return nil
+		}))
+	es = append(es, pd("AccessList", func() *types.ProtoAccessList { return new(types.ProtoAccessList) },
+		[]*types.ProtoAccessList{types.AccessList{{Address: addrIn(3), StorageKeys: []common.Hash{h(62), h(63)}}}.ProtoEncode()},
+		func(m *types.ProtoAccessList) error { al := types.AccessList{}; return al.ProtoDecode(m, loc00) }))
+	var aps []*types.ProtoAuxPow
+	for _, id := range []types.PowID{types.Kawpow, types.SHA_BTC, types.SHA_BCH, types.Scrypt} {
+		aps = append(aps, richAuxPow(id).ProtoEncode())
+	}
+	es = append(es, pd("AuxPow", func() *types.ProtoAuxPow { return new(types.ProtoAuxPow) }, aps,
+		func(m *types.ProtoAuxPow) error {
+			ap := &types.AuxPow{}
+			if err := ap.ProtoDecode(m); err != nil {
+				return err
+			}
+			if ap.Header() != nil {
+				_ = ap.Header().PowHash()
+				_ = ap.Header().MerkleRoot()
+				_ = ap.ConvertToTemplate().Hash()
+			}
+			_ = types.CalculateMerkleRoot(ap.PowID(), ap.Transaction(), ap.MerkleBranch())
+			return nil
+		}))
+	rs := types.ReceiptsForStorage{(*types.ReceiptForStorage)(richReceipt()), (*types.ReceiptForStorage)(richReceipt())}
+	es = append(es, pd("ReceiptsForStorage", func() *types.ProtoReceiptsForStorage { return new(types.ProtoReceiptsForStorage) },
+		[]*types.ProtoReceiptsForStorage{must(rs.ProtoEncode())},
+		func(m *types.ProtoReceiptsForStorage) error { x := types.ReceiptsForStorage{}; return x.ProtoDecode(m, loc00) }))
+	es = append(es, pd("ReceiptForStorage", func() *types.ProtoReceiptForStorage { return new(types.ProtoReceiptForStorage) },
+		[]*types.ProtoReceiptForStorage{must(rs[0].ProtoEncode())},
+		func(m *types.ProtoReceiptForStorage) error { x := &types.ReceiptForStorage{}; return x.ProtoDecode(m, loc00) }))
+	es = append(es, pd("LogForStorage", func() *types.ProtoLogForStorage { return new(types.ProtoLogForStorage) },
+		[]*types.ProtoLogForStorage{types.LogForStorage(*richReceipt().Logs[0]).ProtoEncode()},
+		func(m *types.ProtoLogForStorage) error { x := &types.LogForStorage{}; return x.ProtoDecode(m, loc00) }))
+	qi := richQiTx()
+	es = append(es, pd("TxIns", func() *types.ProtoTxIns { return new(types.ProtoTxIns) }, []*types.ProtoTxIns{must(qi.TxIn().ProtoEncode())},
+		func(m *types.ProtoTxIns) error { x := types.TxIns{}; return x.ProtoDecode(m) }))
+	es = append(es, pd("TxOuts", func() *types.ProtoTxOuts { return new(types.ProtoTxOuts) }, []*types.ProtoTxOuts{must(qi.TxOut().ProtoEncode())},
+		func(m *types.ProtoTxOuts) error { x := types.TxOuts{}; return x.ProtoDecode(m) }))
+	es = append(es, pd("TxIn", func() *types.ProtoTxIn { return new(types.ProtoTxIn) }, []*types.ProtoTxIn{must(qi.TxIn()[0].ProtoEncode())},
+		func(m *types.ProtoTxIn) error { x := &types.TxIn{}; return x.ProtoDecode(m) }))
+	es = append(es, pd("TxOut+UtxoEntry", func() *types.ProtoTxOut { return new(types.ProtoTxOut) }, []*types.ProtoTxOut{must(qi.TxOut()[1].ProtoEncode())},
+		func(m *types.ProtoTxOut) error {
+			x := &types.TxOut{}
+			e1 := x.ProtoDecode(m)
+			y := &types.UtxoEntry{}
+			e2 := y.ProtoDecode(m)
+			if e1 != nil {
+				return e1
+			}
+			return e2
+		}))
+	prev := h(71)
+	es = append(es, pd("OutPoint", func() *types.ProtoOutPoint { return new(types.ProtoOutPoint) }, []*types.ProtoOutPoint{must(types.NewOutPoint(&prev, 3).ProtoEncode())},
+		func(m *types.ProtoOutPoint) error { x := &types.OutPoint{}; return x.ProtoDecode(m) }))
+	oad := types.OutpointAndDenomination{TxHash: h(72), Index: 2, Denomination: 3, Lock: big.NewInt(5)}
+	es = append(es, pd("OutpointAndDenomination", func() *types.ProtoOutPointAndDenomination { return new(types.ProtoOutPointAndDenomination) },
+		[]*types.ProtoOutPointAndDenomination{must(oad.ProtoEncode())},
+		func(m *types.ProtoOutPointAndDenomination) error { x := &types.OutpointAndDenomination{}; return x.ProtoDecode(m) }))
+	sutxo := &types.SpentUtxoEntry{OutPoint: *types.NewOutPoint(&prev, 3), UtxoEntry: &types.UtxoEntry{Denomination: 4, Address: qiAddrIn(4).Bytes(), Lock: big.NewInt(9)}}
+	es = append(es, pd("SpentUtxoEntry", func() *types.ProtoSpentUTXO { return new(types.ProtoSpentUTXO) }, []*types.ProtoSpentUTXO{must(sutxo.ProtoEncode())},
+		func(m *types.ProtoSpentUTXO) error { x := &types.SpentUtxoEntry{}; return x.ProtoDecode(m) }))
+	set := types.NewEtxSet()
+	set.ETXHashes = append(set.ETXHashes, h(1).Bytes()...)
+	es = append(es, pd("EtxSet", func() *types.ProtoEtxSet { return new(types.ProtoEtxSet) }, []*types.ProtoEtxSet{set.ProtoEncode()},
+		func(m *types.ProtoEtxSet) error { x := types.NewEtxSet(); return x.ProtoDecode(m) }))
+	tcs := types.NewTokenChoiceSet()
+	es = append(es, pd("TokenChoiceSet", func() *types.ProtoTokenChoiceSet { return new(types.ProtoTokenChoiceSet) },
+		[]*types.ProtoTokenChoiceSet{must(tcs.ProtoEncode())},
+		func(m *types.ProtoTokenChoiceSet) error { x := types.NewTokenChoiceSet(); return x.ProtoDecode(m) }))
+	betas := types.NewBetas(big.NewFloat(1.5), big.NewFloat(-0.25))
+	es = append(es, pd("Betas", func() *types.ProtoBetas { return new(types.ProtoBetas) }, []*types.ProtoBetas{must(betas.ProtoEncode())},
+		func(m *types.ProtoBetas) error { x := &types.Betas{}; return x.ProtoDecode(m) }))
+	pe := &types.PendingEtxs{Header: richWO(types.Kawpow, true), OutboundEtxs: types.Transactions{richEtx()}}
+	es = append(es, pd("PendingEtxs", func() *types.ProtoPendingEtxs { return new(types.ProtoPendingEtxs) }, []*types.ProtoPendingEtxs{must(pe.ProtoEncode())},
+		func(m *types.ProtoPendingEtxs) error {
+			x := &types.PendingEtxs{}
+			if err := x.ProtoDecode(m, loc00); err != nil {
+				return err
+			}
+			touchWO(x.Header)
+			return nil
+		}))
+	per := &types.PendingEtxsRollup{Header: richWO(types.Kawpow, true), EtxsRollup: types.Transactions{richEtx()}}
+	es = append(es, pd("PendingEtxsRollup", func() *types.ProtoPendingEtxsRollup { return new(types.ProtoPendingEtxsRollup) },
+		[]*types.ProtoPendingEtxsRollup{must(per.ProtoEncode())},
+		func(m *types.ProtoPendingEtxsRollup) error {
+			x := &types.PendingEtxsRollup{}
+			if err := x.ProtoDecode(m, loc00); err != nil {
+				return err
+			}
+			touchWO(x.Header)
+			return nil
+		}))
+	termini := types.EmptyTermini()
+	ph := types.NewPendingHeader(richWO(types.Kawpow, true), termini)
+	es = append(es, pd("PendingHeader", func() *types.ProtoPendingHeader { return new(types.ProtoPendingHeader) },
+		[]*types.ProtoPendingHeader{must(ph.ProtoEncode())},
+		func(m *types.ProtoPendingHeader) error {
+			x := &types.PendingHeader{}
+			if err := x.ProtoDecode(m, loc00); err != nil {
+				return err
+			}
+			touchWO(x.WorkObject())
+			t := x.Termini()
+			_ = t.IsValid()
+			return nil
+		}))
+	es = append(es, pd("Termini", func() *types.ProtoTermini { return new(types.ProtoTermini) }, []*types.ProtoTermini{termini.ProtoEncode()},
+		func(m *types.ProtoTermini) error {
+			x := &types.Termini{}
+			if err := x.ProtoDecode(m); err != nil {
+				return err
+			}
+			_ = x.IsValid() // accessors index fixed positions: production callers must check IsValid first
+			return nil
+		}))
+	es = append(es, pd("BlockManifest", func() *types.ProtoManifest { return new(types.ProtoManifest) },
+		[]*types.ProtoManifest{must(types.BlockManifest{h(1), h(2)}.ProtoEncode())},
+		func(m *types.ProtoManifest) error { x := types.BlockManifest{}; return x.ProtoDecode(m) }))
+	es = append(es, pd("common.Address", func() *common.ProtoAddress { return new(common.ProtoAddress) },
+		[]*common.ProtoAddress{addrIn(1).ProtoEncode()},
+		func(m *common.ProtoAddress) error {
+			x := &common.Address{}
+			if err := x.ProtoDecode(m, loc00); err != nil {
+				return err
+			}
+			_ = x.Hex()
+			_ = x.Location()
+			_, _ = x.InternalAddress()
+			return nil
+		}))
+	es = append(es, pd("common.Hashes", func() *common.ProtoHashes { return new(common.ProtoHashes) },
+		[]*common.ProtoHashes{common.Hashes{h(1), h(2)}.ProtoEncode()},
+		func(m *common.ProtoHashes) error { x := common.Hashes{}; x.ProtoDecode(m); return nil }))
+	es = append(es, pd("common.Location", func() *common.ProtoLocation { return new(common.ProtoLocation) },
+		[]*common.ProtoLocation{loc00.ProtoEncode()},
+		func(m *common.ProtoLocation) error {
+			x := common.Location{}
+			x.ProtoDecode(m)
+			_ = x.Context()
+			_ = x.Name()
+			_ = x.Region()
+			_ = x.Zone()
+			return nil
+		}))
+	return es
+}
+
+// ---------- RLP ----------
+
+func rlpEntries() []*Entry {
+	var es []*Entry
+	var txBins [][]byte
+	for _, tx := range richTxs() {
+		txBins = append(txBins, must(tx.MarshalBinary()))
+	}
+	es = append(es, &Entry{Name: "rlp.Transaction.UnmarshalBinary", Seeds: txBins, Fn: func(in []byte) (bool, error) {
+		tx := &types.Transaction{}
+		if err := tx.UnmarshalBinary(in); err != nil {
+			return len(in) > 0 && in[0] <= 2, err
+		}
+		touchTx(tx)
+		return true, nil
+	}})
+	into := func(name string, seeds [][]byte, fresh func() interface{}) {
+		es = append(es, &Entry{Name: "rlp.DecodeBytes/" + name, Seeds: seeds, Fn: func(in []byte) (bool, error) {
+			v := fresh()
+			if err := rlp.DecodeBytes(in, v); err != nil {
+				return false, err
+			}
+			if tx, ok := v.(*types.Transaction); ok {
+				touchTx(tx)
+			}
+			return true, nil
+		}})
+	}
+	var txRlps [][]byte
+	for _, tx := range richTxs() {
+		txRlps = append(txRlps, must(rlp.EncodeToBytes(tx)))
+	}
+	into("Transaction", txRlps, func() interface{} { return new(types.Transaction) })
+	into("Transactions", [][]byte{must(rlp.EncodeToBytes(types.Transactions(richTxs())))}, func() interface{} { return new(types.Transactions) })
+	into("Receipt", [][]byte{must(rlp.EncodeToBytes(richReceipt()))}, func() interface{} { return new(types.Receipt) })
+	into("ReceiptForStorage", [][]byte{must(rlp.EncodeToBytes((*types.ReceiptForStorage)(richReceipt())))}, func() interface{} { return new(types.ReceiptForStorage) })
+	into("Log", [][]byte{must(rlp.EncodeToBytes(richReceipt().Logs[0]))}, func() interface{} { return new(types.Log) })
+	into("LogForStorage", [][]byte{must(rlp.EncodeToBytes((*types.LogForStorage)(richReceipt().Logs[0])))}, func() interface{} { return new(types.LogForStorage) })
+	into("AccessList", [][]byte{must(rlp.EncodeToBytes(types.AccessList{{Address: addrIn(3), StorageKeys: []common.Hash{h(62)}}}))}, func() interface{} { return new(types.AccessList) })
+	into("Address", [][]byte{must(rlp.EncodeToBytes(addrIn(3)))}, func() interface{} { return new(common.Address) })
+	return es
+}
+
+// ---------- JSON / hex arguments ----------
+
+func jsonEntries() []*Entry {
+	var es []*Entry
+	into := func(name string, seeds [][]byte, fresh func() interface{}, after func(interface{})) {
+		es = append(es, &Entry{Name: "json.Unmarshal/" + name, Seeds: seeds, Fn: func(in []byte) (bool, error) {
+			v := fresh()
+			if err := json.Unmarshal(in, v); err != nil {
+				return json.Valid(in), err
+			}
+			if after != nil {
+				after(v)
+			}
+			return true, nil
+		}})
+	}
+	q := func(s string) []byte { return []byte(`"` + s + `"`) }
+	into("hexutil.Bytes", [][]byte{q("0x0102ff"), q("0x")}, func() interface{} { return new(hexutil.Bytes) }, nil)
+	into("hexutil.Big", [][]byte{q("0x1234567890abcdef1234567890"), q("0x0")}, func() interface{} { return new(hexutil.Big) }, nil)
+	into("hexutil.Uint64", [][]byte{q("0xffffffffffffffff"), q("0x1")}, func() interface{} { return new(hexutil.Uint64) }, nil)
+	into("hexutil.Uint", [][]byte{q("0xff")}, func() interface{} { return new(hexutil.Uint) }, nil)
+	into("common.Hash", [][]byte{q(h(1).Hex())}, func() interface{} { return new(common.Hash) }, nil)
+	into("common.AddressBytes", [][]byte{q(addrIn(1).Hex())}, func() interface{} { return new(common.AddressBytes) }, nil)
+	into("common.MixedcaseAddress", [][]byte{q(addrIn(1).Hex())}, func() interface{} { return new(common.MixedcaseAddress) }, nil)
+	into("common.UnprefixedHash", [][]byte{q(h(1).Hex()[2:])}, func() interface{} { return new(common.UnprefixedHash) }, nil)
+	var txJSON [][]byte
+	for _, tx := range richTxs() {
+		txJSON = append(txJSON, must(json.Marshal(tx)))
+	}
+	into("types.Transaction", txJSON, func() interface{} { return new(types.Transaction) }, func(v interface{}) { touchTx(v.(*types.Transaction)) })
+	into("types.Header", [][]byte{must(json.Marshal(richHeader()))}, func() interface{} { return new(types.Header) }, func(v interface{}) { _ = v.(*types.Header).Hash() })
+	into("types.Receipt", [][]byte{must(json.Marshal(richReceipt()))}, func() interface{} { return new(types.Receipt) }, nil)
+	into("types.Log", [][]byte{must(json.Marshal(richReceipt().Logs[0]))}, func() interface{} { return new(types.Log) }, nil)
+	into("types.AccessList", [][]byte{must(json.Marshal(types.AccessList{{Address: addrIn(3), StorageKeys: []common.Hash{h(62)}}}))}, func() interface{} { return new(types.AccessList) }, nil)
+	into("types.OutpointAndDenomination", [][]byte{must(json.Marshal(&types.OutpointAndDenomination{TxHash: h(72), Index: 2, Denomination: 3, Lock: big.NewInt(5)}))},
+		func() interface{} { return new(types.OutpointAndDenomination) }, nil)
+	// raw hex decoders
+	es = append(es, &Entry{Name: "hexutil.Decode*", Seeds: [][]byte{[]byte("0x0102ff"), []byte("0x1234")}, Fn: func(in []byte) (bool, error) {
+		s := string(in)
+		_, e1 := hexutil.Decode(s)
+		_, e2 := hexutil.DecodeBig(s)
+		_, e3 := hexutil.DecodeUint64(s)
+		_ = common.FromHex(s)
+		_ = common.HexToHash(s)
+		_ = common.HexToAddress(s, loc00)
+		_ = common.IsHexAddress(s)
+		if e1 != nil && e2 != nil && e3 != nil {
+			return false, e1
+		}
+		return true, nil
+	}})
+	return es
+}
+
+// ---------- rawdb readers on corrupted stored values ----------
+
+type kv struct{ k, v []byte }
+
+func dump(db ethdb.Database) []kv {
+	var out []kv
+	it := db.NewIterator(nil, nil)
+	defer it.Release()
+	for it.Next() {
+		out = append(out, kv{append([]byte{}, it.Key()...), append([]byte{}, it.Value()...)})
+	}
+	sort.Slice(out, func(i, j int) bool { return string(out[i].k) < string(out[j].k) })
+	return out
+}
+
+// rawdbCase: write valid objects, then for every stored value one entry that replaces that value
+// by the input and calls the reader(s).
+func rawdbCase(name string, write func(db ethdb.Database), read func(db ethdb.Database)) []*Entry {
+	db := rawdb.NewMemoryDatabase(log.Global)
+	write(db)
+	pairs := dump(db)
+	var es []*Entry
+	for i := range pairs {
+		i := i
+		es = append(es, &Entry{Name: fmt.Sprintf("rawdb.%s[value#%d]", name, i), Seeds: [][]byte{pairs[i].v}, Fn: func(in []byte) (bool, error) {
+			d := rawdb.NewMemoryDatabase(log.Global)
+			for j, p := range pairs {
+				if j == i {
+					d.Put(p.k, in)
+				} else {
+					d.Put(p.k, p.v)
+				}
+			}
+			read(d)
+			return true, nil
+		}})
+	}
+	return es
+}
+
+func rawdbEntries() []*Entry {
+	var es []*Entry
+	wo := zoneBlockWO(types.Kawpow, true)
+	hash := wo.Hash()
+	num := wo.NumberU64(common.ZONE_CTX)
+	add := func(name string, write func(db ethdb.Database), read func(db ethdb.Database)) {
+		es = append(es, rawdbCase(name, write, read)...)
+	}
+	add("ReadWorkObject", func(db ethdb.Database) { rawdb.WriteWorkObject(db, hash, wo, types.BlockObject, common.ZONE_CTX) },
+		func(db ethdb.Database) {
+			touchWO(rawdb.ReadWorkObject(db, num, hash, types.BlockObject))
+			_ = rawdb.ReadWorkObjectHeader(db, num, hash, types.BlockObject)
+			_ = rawdb.ReadWorkObjectBody(db, hash, types.BlockObject)
+			_ = rawdb.ReadWorkObjectBodyHeaderOnly(db, hash)
+			_ = rawdb.ReadWorkObjectHeaderOnly(db, num, hash, types.BlockObject)
+			_ = rawdb.ReadHeader(db, num, hash)
+			_ = rawdb.ReadHeaderNumber(db, hash)
+			_ = rawdb.ReadWorkObjectWithWorkShares(db, num, hash)
+		})
+	add("ReadTermini", func(db ethdb.Database) { rawdb.WriteTermini(db, hash, types.EmptyTermini()) },
+		func(db ethdb.Database) { _ = rawdb.ReadTermini(db, hash) })
+	add("ReadReceipts", func(db ethdb.Database) { rawdb.WriteReceipts(db, hash, num, types.Receipts{richReceipt(), richReceipt()}) },
+		func(db ethdb.Database) {
+			_ = rawdb.ReadRawReceipts(db, hash, num)
+			_ = rawdb.ReadReceipts(db, hash, num, &params.ChainConfig{ChainID: big.NewInt(1), Location: loc00})
+		})
+	add("ReadPendingEtxs", func(db ethdb.Database) {
+		rawdb.WritePendingEtxs(db, types.PendingEtxs{Header: wo, OutboundEtxs: types.Transactions{richEtx()}})
+	}, func(db ethdb.Database) { _ = rawdb.ReadPendingEtxs(db, hash) })
+	add("ReadPendingEtxsRollup", func(db ethdb.Database) {
+		rawdb.WritePendingEtxsRollup(db, types.PendingEtxsRollup{Header: wo, EtxsRollup: types.Transactions{richEtx()}})
+	}, func(db ethdb.Database) { _ = rawdb.ReadPendingEtxsRollup(db, hash) })
+	add("ReadManifest", func(db ethdb.Database) { rawdb.WriteManifest(db, hash, types.BlockManifest{h(1), h(2)}) },
+		func(db ethdb.Database) { _ = rawdb.ReadManifest(db, hash) })
+	add("ReadInterlinkHashes", func(db ethdb.Database) { rawdb.WriteInterlinkHashes(db, hash, common.Hashes{h(1), h(2)}) },
+		func(db ethdb.Database) { _ = rawdb.ReadInterlinkHashes(db, hash) })
+	add("ReadBloom", func(db ethdb.Database) {
+		b := types.CreateBloom(types.Receipts{richReceipt()})
+		rawdb.WriteBloomProto(db, hash, must(b.ProtoEncode()))
+	}, func(db ethdb.Database) { _ = rawdb.ReadBloom(db, hash) })
+	add("ReadInboundEtxs", func(db ethdb.Database) { rawdb.WriteInboundEtxs(db, hash, types.Transactions{richEtx(), richEtx()}) },
+		func(db ethdb.Database) { _ = rawdb.ReadInboundEtxs(db, hash) })
+	add("ReadGenesisHashes", func(db ethdb.Database) { rawdb.WriteGenesisHashes(db, common.Hashes{h(1), h(2)}) },
+		func(db ethdb.Database) { _ = rawdb.ReadGenesisHashes(db) })
+	add("ReadBestPendingHeader", func(db ethdb.Database) { rawdb.WriteBestPendingHeader(db, wo) },
+		func(db ethdb.Database) { touchWO(rawdb.ReadBestPendingHeader(db)) })
+	add("ReadPbCacheBody", func(db ethdb.Database) { rawdb.WritePbCacheBody(db, hash, wo) },
+		func(db ethdb.Database) { touchWO(rawdb.ReadPbCacheBody(db, hash)) })
+	add("ReadTokenChoicesSet", func(db ethdb.Database) { tcs := types.NewTokenChoiceSet(); rawdb.WriteTokenChoicesSet(db, hash, &tcs) },
+		func(db ethdb.Database) { _ = rawdb.ReadTokenChoicesSet(db, hash) })
+	prev := h(71)
+	sutxos := []*types.SpentUtxoEntry{{OutPoint: *types.NewOutPoint(&prev, 3), UtxoEntry: &types.UtxoEntry{Denomination: 4, Address: qiAddrIn(4).Bytes(), Lock: big.NewInt(9)}}}
+	add("ReadSpentUTXOs", func(db ethdb.Database) { rawdb.WriteSpentUTXOs(db, hash, sutxos) },
+		func(db ethdb.Database) { _, _ = rawdb.ReadSpentUTXOs(db, hash) })
+	add("ReadTrimmedUTXOs", func(db ethdb.Database) { rawdb.WriteTrimmedUTXOs(db, hash, sutxos) },
+		func(db ethdb.Database) { _, _ = rawdb.ReadTrimmedUTXOs(db, hash) })
+	add("ReadCreatedUTXOKeys", func(db ethdb.Database) { rawdb.WriteCreatedUTXOKeys(db, hash, [][]byte{h(1).Bytes(), h(2).Bytes()}) },
+		func(db ethdb.Database) { _, _ = rawdb.ReadCreatedUTXOKeys(db, hash) })
+	add("ReadPrunedUTXOKeys", func(db ethdb.Database) { rawdb.WritePrunedUTXOKeys(db, 7, [][]byte{h(1).Bytes(), h(2).Bytes()}) },
+		func(db ethdb.Database) { _, _ = rawdb.ReadPrunedUTXOKeys(db, 7) })
+	var a20 [20]byte
+	copy(a20[:], qiAddrIn(4).Bytes())
+	add("ReadAddressOutpoints", func(db ethdb.Database) {
+		rawdb.WriteAddressOutpoints(db, map[[20]byte][]*types.OutpointAndDenomination{a20: {{TxHash: h(72), Index: 2, Denomination: 3, Lock: big.NewInt(5)}}})
+	}, func(db ethdb.Database) {
+		_, _ = rawdb.ReadOutpointsForAddressAtBlock(db, a20)
+		_, _ = rawdb.ReadAddressUTXOs(db, a20)
+	})
+	add("ReadUtxoToBlockHeight", func(db ethdb.Database) { rawdb.WriteUtxoToBlockHeight(db, h(72), 2, 99) },
+		func(db ethdb.Database) { _ = rawdb.ReadUtxoToBlockHeight(db, h(72), 2) })
+	add("ReadTransaction", func(db ethdb.Database) {
+		rawdb.WriteWorkObject(db, hash, wo, types.BlockObject, common.ZONE_CTX)
+		rawdb.WriteTxLookupEntriesByBlock(db, wo, common.ZONE_CTX)
+	}, func(db ethdb.Database) {
+		for _, tx := range wo.Transactions() {
+			_, _, _, _ = rawdb.ReadTransaction(db, tx.Hash())
+			_ = rawdb.ReadTxLookupEntry(db, tx.Hash())
+		}
+	})
+	return es
+}
